@@ -23,11 +23,12 @@ RULE = (
     "headers = every ordered list of 1..2 items (range x q) with range from the family's set and q in {absent, 0, 0.001, "
     "0.5, 1, 1.000, x, -1, 1.5}, every ordered list of 3 items with q in {absent, 0, 0.5} (thorough: all), plus 12 "
     "spacing / case renderings and 21 further q spellings (exponents, signs, underscores, hex, leading zeros, 1.001, "
-    "2, 10, 1.0 ...); offers = every non-empty ordered list of <= 3 distinct offers from the family's 5-6; 7 families: "
+    "2, 10, 1.0 ...); offers = every non-empty ordered list of <= 3 distinct offers from the family's 5-6; 11 families: "
     "media types (exact, level parameter, type/*, */*, case), media types with several / quoted / differently ordered "
     "parameters and the invalid */subtype, the media types behind accept_html / accept_xhtml / accept_json, languages "
     "(region, '_' separator, case, '*', prefix look-alikes fi / fil), languages with 3-letter primary tags, script "
-    "subtags and three subtags, charsets with codec aliases, codings. One evaluation = one (header, offer list) "
+    "subtags and three subtags, charsets with codec aliases, codings, and per family names its normalisation does not know (windows-874, x-user-defined, x-klingon, i-default, "
+    "zstd, vendor +suffix media types) in several letter cases on both sides. One evaluation = one (header, offer list) "
     "negotiation compared with the reference, plus quality / membership per offer, and per header: parsed items, client "
     "order among equals, documented total order, best, values(), item access by index / slice / key, index / find, "
     "to_header round trip, copy constructor, MIME shortcuts. non-trivial = distinct (family, header, offers) where at "
@@ -170,6 +171,29 @@ FAM = {
         ranges=["zh", "zh-Hant", "zh-Hant-TW", "zh_hant_tw", "fil", "fi", "sr-Latn", "*"],
         offers=["zh-Hant-TW", "zh-Hans-CN", "zh", "fil-PH", "fi", "sr-Latn-RS"],
         match=lambda o, r: r == "*" or _LSPLIT.split(o.lower()) == _LSPLIT.split(r.lower()), spec=_star_spec),
+    # names the normalisation tables do not know, in several letter cases on both sides
+    "charset2": dict(
+        cls=CharsetAccept, small=True,
+        ranges=["windows-874", "WINDOWS-874", "x-user-defined", "X-User-Defined", "utf-8", "*"],
+        offers=["windows-874", "Windows-874", "x-user-defined", "utf-8", "ISO-8859-8-I"],
+        match=lambda o, r: r == "*" or norm_cs(o) == norm_cs(r), spec=_star_spec),
+    "lang3": dict(
+        cls=LanguageAccept, small=True,
+        ranges=["x-klingon", "X-Klingon", "i-default", "I-DEFAULT", "en", "*"],
+        offers=["x-klingon", "X-KLINGON", "i-default", "en-US", "de"],
+        match=lambda o, r: r == "*" or _LSPLIT.split(o.lower()) == _LSPLIT.split(r.lower()), spec=_star_spec),
+    "coding2": dict(
+        cls=Accept, small=True,
+        ranges=["x-gzip", "X-GZIP", "zstd", "ZSTD", "identity", "*"],
+        offers=["x-gzip", "X-Gzip", "zstd", "br", "identity"],
+        match=_plain_match, spec=_star_spec),
+    "mimev": dict(
+        cls=MIMEAccept, small=True,
+        ranges=["application/vnd.api+json", "APPLICATION/VND.API+JSON", "application/vnd.api+json;version=1",
+                "application/*", "Application/Json", "*/*"],
+        offers=["application/vnd.api+json", "application/VND.API+JSON", "application/json",
+                "application/vnd.api+json;version=1", "text/html"],
+        match=match_mime, spec=spec_mime),
     "coding": dict(
         cls=Accept,
         ranges=["gzip", "identity", "*", "GZIP", "br"],
